@@ -198,9 +198,11 @@ impl<'a> Gen<'a> {
     fn hand_edited(&mut self, e: Expr) -> Expr {
         let mut extras = Vec::new();
         for _ in 0..self.rng.range(1, 2) {
-            let x = match self.rng.below(4) {
+            let x = match self.rng.below(5) {
                 0 => self.failing_leaf(),
                 1 => self.assignment(2, 1),
+                // a write identifier in value position: its name as a string, on both paths
+                4 => Expr::WriteName(self.name()),
                 _ => {
                     let t = self.any_ty();
                     self.expr(t, 2, 1)
@@ -285,7 +287,24 @@ impl<'a> Gen<'a> {
         if self.cfg.nested_statements && self.rng.percent(10) {
             // computed target: a string literal, a call of the name-returning sentinel, or a
             // sub-chain ending in a string
-            let target = match self.rng.below(5) {
+            let target = match self.rng.below(6) {
+                // what the tree builder makes of `"" + a = e`, `-a = e`, `1 + a = e`: the last
+                // identifier before the assignment sign is a write identifier (its name as a
+                // string) below another operator
+                5 => match self.rng.below(4) {
+                    0 => Expr::Bin(
+                        Bin::Add,
+                        Box::new(Expr::Lit(Value::String(String::new()))),
+                        Box::new(Expr::WriteName(name.clone())),
+                    ),
+                    1 => Expr::Un(Un::Neg, Box::new(Expr::WriteName(name.clone()))),
+                    2 => Expr::Bin(
+                        Bin::Add,
+                        Box::new(Expr::Lit(Value::Int(1))),
+                        Box::new(Expr::WriteName(name.clone())),
+                    ),
+                    _ => Expr::Tuple(vec![Expr::WriteName(name.clone()), Expr::Lit(Value::Int(1))]),
+                },
                 // not a name at all (`5 = e`): the operands are still evaluated first
                 4 => match self.rng.below(3) {
                     0 => Expr::Lit(Value::Int(5)),
